@@ -80,7 +80,8 @@ B_DT = {0: (-9999, 9999), 1: (1, 12), 2: (1, 31), 3: (0, 23), 4: (0, 59), 5: (0,
 KERNELS = [
     K("c02::k_its_to_dt", pre=lambda a: And(valid_ts(a[0], a[1]), off_ok(a[2])),
       claims=[("ITimestamp::to_datetime == Gregorian decomposition of floor-divided (t + o), all fields in range", decomposition)],
-      bounds=B_TS, split=(0, {"quick": 16, "thorough": 64})),
+      bounds=B_TS, split=(0, 64), tier="thorough", timeout=600,
+      note="the same code is exercised through the public Offset::to_datetime kernel in the quick tier"),
     K("c02::k_idt_to_ts", pre=lambda a: And(valid_dt(a), off_ok(a[7])),
       claims=[("IDateTime::to_timestamp == exact instant, in normal (same-sign) form",
                lambda a, o: back_exact(a, o[0].ints(), o[1].i))],
@@ -123,7 +124,7 @@ KERNELS = [
     K("c02::k_off_to_datetime", pre=lambda a: And(valid_ts(a[0], a[1]), off_ok(a[2])),
       claims=[("Offset::to_datetime: every in-range timestamp converts; result = decomposition of t + o",
                lambda a, o: And(o.is_some, decomposition(a, o.some)))],
-      bounds=B_TS, split=(0, {"quick": 16, "thorough": 64})),
+      bounds=B_TS, split=(0, {"quick": 32, "thorough": 128}), timeout=240),
     K("c02::k_off_to_timestamp", pre=lambda a: And(valid_dt(a), off_ok(a[7])),
       claims=[("Offset::to_timestamp: Ok iff instant in range; exact; normal form",
                lambda a, o: And(o.is_some, opt_ts(o.some[0],
